@@ -80,27 +80,22 @@ fn bare_to_dim_type(
     let mut found: Option<(BuiltInStyle, &VariableInfo)> = None;
     let q = bare_name.qualify(ctx);
     for (built_in_style, variable_info) in ctx.names.find_name_or_shared_in_parent(bare_name) {
+        // a compact variable of another type (A$ next to A!) is a different variable:
+        // it has nothing to say about this REDIM
+        let is_same_variable = match built_in_style {
+            BuiltInStyle::Compact => variable_info.expression_type.opt_qualifier() == Some(q),
+            BuiltInStyle::Extended => true,
+        };
+        if !is_same_variable {
+            continue;
+        }
         match &variable_info.redim_info {
             Some(r) => {
                 if r.dimension_count != array_dimensions.len() {
                     return Err(LintError::WrongNumberOfDimensions.at_pos(extra.pos));
                 }
-
-                match built_in_style {
-                    BuiltInStyle::Compact => {
-                        let opt_q: Option<TypeQualifier> =
-                            variable_info.expression_type.opt_qualifier();
-                        let existing_q = opt_q.expect("Should be qualified");
-                        if existing_q == q {
-                            debug_assert!(found.is_none());
-                            found = Some((built_in_style, variable_info));
-                        }
-                    }
-                    BuiltInStyle::Extended => {
-                        debug_assert!(found.is_none());
-                        found = Some((built_in_style, variable_info));
-                    }
-                }
+                debug_assert!(found.is_none());
+                found = Some((built_in_style, variable_info));
             }
             _ => {
                 return Err(LintError::DuplicateDefinition.at_pos(extra.pos));
